@@ -21,11 +21,21 @@ prop("C04", "exploration",
      "its own value - Marshal, ReadFrom; the resulting object becomes a new forest member whose ground truth is the CHANGED content "
      "under the signature the original already carried, and the following VerifyLeaf / VerifyParent / AddCertificate step uses it as "
      "leaf, child, presented or stored intermediate; the model therefore demands rejection wherever that signature matters unless "
-     "nothing changed). Every VerifyLeaf answer must equal "
+     "nothing changed) - in one modify step out of four the changed certificate is read into a RE-USED value, see next - or re-read (a "
+     "chain member - leaf, named intermediate or its root, the forest's object that the Store may hold or the separately parsed copy - "
+     "is read with ReadFrom into a Certificate value that was a ReadFrom target before: either the existing object receives 0..3 "
+     "earlier reads and then its own bytes again, or a new value receives 1..3 earlier reads and then the certificate and replaces the "
+     "object in all later steps, an AddCertificate that follows hands it to the Store; earlier reads are another certificate of the "
+     "forest, the same certificate, a read cut short at one of 17 offsets around the field boundaries - which fails -, or arbitrary "
+     "bytes; readers are a bytes.Reader, a stream that continues behind the certificate, or one byte per Read call. ReadFrom "
+     "'populates a certificate from serialized bytes', so the content read LAST decides: the read must succeed with the full length, "
+     "the fingerprint must be SHA3-256 of those bytes, Marshal must give what a fresh value that read the same bytes gives - the "
+     "signature names the field that first differs - and the model's answers are unchanged). Every VerifyLeaf answer must equal "
      "the stateless model written from the property statement (both directions), every VerifyParent answer the type-pairing / "
      "fingerprint / Ed25519 predicate. Second generator: chains made only by SelfSignRoot, IssueIntermediate / issue and IssueLeafAt "
      "(issuance instants and durations on and around the parent's bounds), verified in memory and after Marshal+ReadFrom at the "
-     "bounds of all three windows; in 5 of 8 cases one to three chain members in use are marshalled once more before the probes and "
+     "bounds of all three windows, in half of the cases with the re-read going into a value that already read another chain member, "
+     "the same bytes, a truncated read, arbitrary bytes or two of those (same clauses as above); in 5 of 8 cases one to three chain members in use are marshalled once more before the probes and "
      "that serialisation is overwritten by its caller. Enumerations: every single-bit flip and raw fixed-field overwrite of the leaf, intermediate and "
      "root bytes of verifying chains in 3..5 store/presentation layouts; every re-signed and stale-signed single-field substitution "
      "(type, issuer link / key, public key, names, each time bound) in place and side by side x 5 stores, judged by the model. "
@@ -35,6 +45,9 @@ prop("C04", "exploration",
       "(documented to mean 'use the wall clock')",
       "certificates handed to VerifyLeaf / VerifyParent / AddCertificate come from ReadFrom or from the issuing functions, as in "
       "every caller (transport handshake, PEM loaders); hand-assembled Certificate structs are out of scope",
+      "a Certificate value may be the target of ReadFrom more than once (it is an io.ReaderFrom and nothing documents it as "
+      "single-use); what it read last is what it stands for. Values are re-used through their pointer only - a Certificate copied "
+      "by assignment and its source are never both read into afterwards",
       "validity is IssuedAt <= now < ExpiresAt (the bound the repository's own test pins: now == ExpiresAt is rejected)",
       "a presented intermediate whose fingerprint the leaf does not name is ignored (documented on VerifyOptions), so a mutated "
       "presented copy next to the genuine stored intermediate still verifies",
